@@ -586,6 +586,7 @@ pub fn generate(prop: &str, family: &str, seed: u64) -> RunDesc {
         "dir-t8" => crate::dir::t8(prop, seed),
         "dir-w" => crate::dir::w(prop, seed),
         "dir-c" => crate::dir::c(prop, seed),
+        "client" => crate::fam_client::gen(prop, seed),
         "queue" => crate::fam_queue::gen(prop, seed),
         "list" => crate::fam_list::gen(prop, seed),
         "chain" => crate::fam_chain::gen(prop, seed, false),
